@@ -242,6 +242,28 @@ fn mutate_text(rng: &mut Rng, s: &str) -> String {
     chars.into_iter().collect()
 }
 
+/// Scripts (peers @P0, @P1) driven to the end with the service model.
+const DRIVEN_SCRIPTS: &[(&str, &str)] = &[
+    // the `next` of a stream fold sits in an inner fold and runs once per inner iteration
+    ("next-twice-canon-inner", r#"(seq (seq (ap "a" $s) (seq (ap 1 $t) (seq (ap 2 $t) (canon "@P0" $t #t)))) (fold $s i (fold #t j (par (next j) (next i)))))"#),
+    ("next-twice-stream-inner", r#"(seq (seq (ap 1 $t) (seq (fold $t q (null)) (ap 2 $t))) (seq (ap "x" $s) (fold $s i (fold $t k (seq (null) (next i))))))"#),
+    ("next-twice-scalar-inner", r#"(seq (seq (call "@P0" ("s" "arr1") ["d"] arr) (ap "x" $s)) (fold $s i (fold arr j (par (next j) (next i)))))"#),
+    ("next-twice-seq", r#"(seq (seq (call "@P0" ("s" "arr1") ["d"] arr) (ap "x" $s)) (fold $s i (fold arr j (seq (next j) (next i)))))"#),
+    ("next-outer-scalar-twice", r#"(seq (call "@P0" ("s" "arr1") ["d"] arr) (fold arr i (fold arr j (par (next j) (next i)))))"#),
+    ("next-outer-map-twice", r#"(seq (seq (ap ("k" 1) %m) (seq (ap 1 $t) (seq (ap 2 $t) (canon "@P0" $t #t)))) (fold %m i (fold #t j (par (next j) (next i)))))"#),
+    // a scalar and a fold iterator of one name
+    ("clash-scalar-then-iterator", r#"(seq (ap 1 i) (seq (ap 1 $s) (seq (canon "@P0" $s #c) (fold #c i (ap i y)))))"#),
+    ("clash-iterator-then-ap", r#"(seq (ap 1 $s) (seq (canon "@P0" $s #c) (fold #c i (seq (ap 1 i) (ap i y)))))"#),
+    ("clash-iterator-then-canon-map-scalar", r#"(seq (ap ("k" 1) %m) (seq (ap 1 $s) (seq (canon "@P0" $s #c) (fold #c i (seq (canon "@P0" %m i) (ap i y))))))"#),
+    ("clash-iterator-new", r#"(seq (ap 1 $s) (seq (canon "@P0" $s #c) (fold #c i (new i (seq (ap 2 i) (ap i y))))))"#),
+    ("clash-stream-iterator-then-ap", r#"(seq (ap 1 $s) (fold $s i (seq (ap 1 i) (seq (ap i y) (next i)))))"#),
+    ("clash-nested-same-iterator", r#"(seq (ap 1 $s) (seq (canon "@P0" $s #c) (fold #c i (fold #c i (seq (ap i y) (next i))))))"#),
+    // a scalar under new that is read before the pending call has set it
+    ("new-scalar-read-before-set", r#"(new x (seq (par (call "@P1" ("s" "num1") [] x) (null)) (xor (call "@P0" ("s" "str1") [x]) (call "@P0" ("s" "str2") []))))"#),
+    // values nested deeper than the JSON parser's recursion limit, built by the script itself
+    ("self-nesting-canon", r#"(seq (ap 1 $s) (fold $s i (seq (canon "@P0" $s #c) (seq (xor (match #c.length 140 (null)) (new $t (seq (ap #c $t) (seq (canon "@P0" $t #d) (ap #d.$.[0] $s))))) (next i)))))"#),
+];
+
 /// Valid JSON of every type, as a service may legally return it.
 const SHAPE_POOL: &[&str] = &[
     "null", "true", "false", "0", "-1", "1", "1.5", "-0.0", "1e308", "18446744073709551615", "9223372036854775808", "-9223372036854775808",
@@ -278,6 +300,33 @@ fn plan_from_history(c: &Case, rng: &mut Rng, out: &mut Vec<Planned>, per_step: 
                                     out.push(Planned { case: exec_case(&input, true, true), label: format!("tamper:fold[{i}].lore[{k}].desc[{d}].pos={pos}{}", if zero_len { ",len=0" } else { "" }), group: "signed-tamper" });
                                 }
                             }
+                        }
+                    }
+                }
+            }
+        }
+        // fold lore whose value position names a state that is not a stream value (the fold itself, a par, a
+        // call), with a later entry left with fewer than two descriptors
+        for s in c.history.steps.iter().rev().filter(|s| !s.input.cur.is_empty()).take(2) {
+            let Ok(view) = proj::decode(&s.input.cur) else { continue };
+            let tlen = proj::trace(&view.data).len();
+            for (i, st) in proj::states(&view.data).iter().enumerate() {
+                let proj::St::Fold(lore) = st else { continue };
+                if lore.is_empty() {
+                    continue;
+                }
+                for target in (0..tlen).take(12) {
+                    for keep in [0usize, 1] {
+                        let mut data = view.data.clone();
+                        data["trace"][i]["fold"]["lore"][0]["pos"] = json!(target);
+                        let extra = json!({"pos": 0, "desc": (0..keep).map(|_| json!({"pos": 0, "len": 0})).collect::<Vec<_>>()});
+                        if let Some(a) = data["trace"][i]["fold"]["lore"].as_array_mut() {
+                            a.push(extra);
+                        }
+                        if let Ok(bytes) = proj::encode_with_versions(&data, &view.data_version, &view.interpreter_version) {
+                            let mut input = s.input.clone();
+                            input.cur = bytes;
+                            out.push(Planned { case: exec_case(&input, true, true), label: format!("tamper:fold[{i}].lore[0].pos={target}+short-entry({keep})"), group: "signed-tamper" });
                         }
                     }
                 }
@@ -328,6 +377,30 @@ fn plan_from_history(c: &Case, rng: &mut Rng, out: &mut Vec<Planned>, per_step: 
                 let mut input = s.input.clone();
                 input.call_results = CallResultsIn::Map(m);
                 out.push(Planned { case: exec_case(&input, true, false), label: "call-results:wrong-shape".into(), group: "hostile-call-results" });
+            }
+        }
+    }
+    // request-sent states are not signed: current data (a copy of the peer's own previous data) in which some
+    // other pending call claims the id of a result handed over in this very run, including calls whose
+    // arguments are still unknown
+    for s in &c.history.steps {
+        let CallResultsIn::Map(honest) = &s.input.call_results else { continue };
+        if honest.is_empty() || s.input.prev.is_empty() {
+            continue;
+        }
+        let Ok(view) = proj::decode(&s.input.prev) else { continue };
+        let me_id = &w.peers[s.peer].id;
+        let sent: Vec<usize> = proj::states(&view.data).iter().enumerate().filter(|(_, st)| matches!(st, proj::St::CallSent(..))).map(|(i, _)| i).collect();
+        for pos in sent.iter().take(6) {
+            for id in honest.keys().take(2) {
+                let Ok(idn) = id.parse::<u64>() else { continue };
+                let mut data = view.data.clone();
+                data["trace"][*pos] = json!({"call": {"sent_by": {"PeerIdWithCallId": {"peer_id": me_id, "call_id": idn}}}});
+                if let Ok(bytes) = proj::encode_with_versions(&data, &view.data_version, &view.interpreter_version) {
+                    let mut input = s.input.clone();
+                    input.cur = bytes;
+                    out.push(Planned { case: exec_case(&input, true, false), label: "tamper:call-id-claimed-by-another-call".into(), group: "signed-tamper" });
+                }
             }
         }
     }
@@ -503,6 +576,63 @@ pub fn run(cfg: &Cfg) -> Report {
         planned.push((u64::MAX, Planned { case: exec_case(&input, false, false), label: format!("script:{label}"), group: "hostile-scripts" }));
         for k in ["parse", "beautify", "beautify_patterns"] {
             planned.push((u64::MAX, Planned { case: json!({"kind": k, "text": text}), label: format!("{k}:{label}"), group: "other-entry-points" }));
+        }
+    }
+    // the odd-but-parsable scripts again, this time driven to the end on two peers with the service model (the
+    // single runs above stop at the first pending call), plus scripts whose `next` runs more than once per
+    // iteration and scalar/iterator/stream name clashes that need no service at all
+    if cfg.only_case.is_none() {
+        let ids = standard_peer_ids(2);
+        let mut driven: Vec<(String, String)> = hostile_scripts(&mut Rng::derive(cfg.seed, 0xc01, 0), "@P0", false)
+            .into_iter()
+            .filter(|(l, _)| !(l.starts_with("deep-") || l.starts_with("long-") || l.starts_with("many-") || l.starts_with("token-soup")))
+            .collect();
+        for (l, t) in DRIVEN_SCRIPTS {
+            driven.push((l.to_string(), t.to_string()));
+        }
+        for (k, (label, text)) in driven.iter().enumerate() {
+            let mut air = text.clone();
+            for (i, id) in ids.iter().enumerate() {
+                air = air.replace(&format!("@P{i}"), id);
+            }
+            if air_parser::parse(&air).is_err() {
+                continue;
+            }
+            for r in 0..2 {
+                let mut rng = Rng::derive(cfg.seed ^ 0xd01, k as u64, r);
+                let world = World::new(2, air.clone(), None, &format!("c01-driven-{k}"), 3);
+                let sched = mk_sched(&mut rng);
+                let history = run_random(&world, &mut rng, &sched);
+                stats.inc("driven_odd_script_runs", history.steps.len() as u64);
+                for s in &history.steps {
+                    planned.push((u64::MAX, Planned { case: exec_case(&s.input, false, true), label: format!("script:driven-{label}"), group: "hostile-scripts" }));
+                }
+            }
+        }
+    }
+    // crafted current data: a pending call whose arguments are still unknown is given a request-sent state
+    // that carries this peer's id and the id of a result handed over in the same run (no CIDs, nothing to sign)
+    if cfg.only_case.is_none() {
+        let peers2 = standard_peers(2);
+        let (p0, p1) = (&peers2[0], &peers2[1]);
+        let script = format!("(par (par (call \"{1}\" (\"svc\" \"str1\") [] y) (call \"{0}\" (\"svc\" \"f1\") [y] z)) (call \"{0}\" (\"svc\" \"f2\") [] x))", p0.id, p1.id);
+        let w = World::new(2, script, None, "c01-crafted-join", 3);
+        let first = invoke(&w.input(p0));
+        if let Ok(view) = proj::decode(&first.data) {
+            let own = |id: u64| json!({"call": {"sent_by": {"PeerIdWithCallId": {"peer_id": p0.id, "call_id": id}}}});
+            for id in [1u64, 2] {
+                let mut data = view.data.clone();
+                data["trace"] = json!([{"par": [3, 1]}, {"par": [1, 1]}, {"call": {"sent_by": {"PeerId": p0.id}}}, own(id), own(id)]);
+                if let Ok(bytes) = proj::encode_with_versions(&data, &view.data_version, &view.interpreter_version) {
+                    let mut input = w.input(p0);
+                    input.prev = first.data.clone();
+                    input.cur = bytes;
+                    let mut m = std::collections::BTreeMap::new();
+                    m.insert(id.to_string(), (0, "\"r\"".to_string()));
+                    input.call_results = CallResultsIn::Map(m);
+                    planned.push((u64::MAX, Planned { case: exec_case(&input, true, false), label: "tamper:call-id-claimed-by-a-waiting-call".into(), group: "signed-tamper" }));
+                }
+            }
         }
     }
     // long scalar folds and runtime type confusion via service results
